@@ -1,6 +1,9 @@
 package main
 
-import "time"
+import (
+	"strings"
+	"time"
+)
 
 func init() {
 	register(&Prop{
@@ -20,7 +23,38 @@ func init() {
 		Stages: []Stage{
 			{Name: "lib", Pkg: "./pkg/station/lib", Run: "^TestVerifC19Config$", Drivers: []string{"lib"}, TimeoutQ: 10 * time.Minute, TimeoutT: 40 * time.Minute},
 			{Name: "liveness", Pkg: "./pkg/station/liveness", Run: "^TestVerifC19LivenessStats$", Drivers: []string{"liveness"}, TimeoutQ: 10 * time.Minute, TimeoutT: 20 * time.Minute},
+			// own child processes: the failure these look for (concurrent map iteration and map write) is process-fatal
+			{Name: "housekeeping-concurrent", Pkg: "./pkg/station/lib", Run: "^TestVerifC19Concurrent$", Drivers: []string{"lib"}, TimeoutQ: 12 * time.Minute, TimeoutT: 40 * time.Minute},
+			{Name: "housekeeping-concurrent-race", Pkg: "./pkg/station/lib", Run: "^TestVerifC19Concurrent$", Drivers: []string{"lib"}, Race: true, Env: []string{"VERIF_C19_RACE=1"},
+				RaceFilter: c19StatsRace, TimeoutQ: 12 * time.Minute, TimeoutT: 40 * time.Minute},
 			{Name: "app", Dir: "cmd/application", Pkg: ".", Run: "^TestVerifC19ConnManager$", Drivers: []string{"app"}, Exports: []string{"lib"}, TimeoutQ: 10 * time.Minute, TimeoutT: 30 * time.Minute},
 		},
 	})
+}
+
+// c19StatsRace attributes a race report to C19 when one of the two racing accesses happens in the
+// statistics code of the station (reporters, counters, the registry) or on the reload path.
+func c19StatsRace(r RaceReport) bool {
+	stats := []string{
+		"station/lib.(*RegistrationStats).", "station/lib.(*RegistrationManager).PrintAndReset", "station/lib.(*Stats).", "station/lib.(*ProxyStats).",
+		"station/lib.(*ZMQIngester).PrintAndReset", "station/lib.(*ZMQIngester).Reset", "station/lib.(*ZMQIngester).add",
+		"station/liveness.(*stats).", "station/liveness.(*CachedLivenessTester).print", "station/liveness.(*CachedLivenessTester).Print",
+		"station/lib.(*RegistrationManager).OnReload", "station/lib.ParseConfig", "station/lib.(*RegConfig).ParseBlocklists",
+	}
+	for i, st := range r.Stacks {
+		if i >= 2 {
+			break
+		}
+		for _, f := range st {
+			if strings.Contains(f, "erif") {
+				continue
+			}
+			for _, s := range stats {
+				if strings.Contains(f, s) {
+					return true
+				}
+			}
+		}
+	}
+	return false
 }
